@@ -40,6 +40,45 @@ fn verif_fx<F: Float>(v: F, scale: f64) -> String {
     }
 }
 
+#[cfg(linfa_verif)]
+thread_local! {
+    /// Verification hook (step level, opt-in through the environment variable
+    /// `LINFA_VERIF_SMO_STEPS=1` so that consumers of the coarse `smo.*` events are unaffected):
+    /// (on for the solve() running on this thread, iterations logged in detail, iterations skipped)
+    static VERIF_STEPS: std::cell::Cell<(bool, usize, usize)> = std::cell::Cell::new((false, 0, 0));
+    /// `smo.select` events not yet emitted (beyond the cap only the selections that are not
+    /// followed by an update, i.e. the ones that end the run, are logged)
+    static VERIF_PENDING: std::cell::RefCell<Vec<String>> = std::cell::RefCell::new(Vec::new());
+    /// number of free variables counted by the last calculate_rho / calculate_rho_nu
+    static VERIF_NFREE: std::cell::Cell<(usize, usize)> = std::cell::Cell::new((0, 0));
+}
+
+/// at most this many iterations of one run are logged step by step
+#[cfg(linfa_verif)]
+const VERIF_MAX_STEPS: usize = 192;
+/// per-position snapshots are logged for problems with at most this many variables
+#[cfg(linfa_verif)]
+const VERIF_MAX_DETAIL: usize = 16;
+
+/// Fixed-point rendering `[round(v * scale), flag]` for the step-level hook; flag 0 = finite and
+/// in range, 1 / -1 = +/- infinity, 2 = NaN, 3 / -3 = magnitude outside the fixed-point range.
+#[cfg(linfa_verif)]
+fn verif_fxf<F: Float>(v: F, scale: f64) -> String {
+    let v = v.to_f64().unwrap_or(f64::NAN);
+    if v.is_nan() {
+        "[0,2]".to_string()
+    } else if v.is_infinite() {
+        (if v > 0.0 { "[0,1]" } else { "[0,-1]" }).to_string()
+    } else {
+        let x = (v * scale).round();
+        if x.abs() >= 1073741824.0 {
+            (if x > 0.0 { "[0,3]" } else { "[0,-3]" }).to_string()
+        } else {
+            format!("[{},0]", x as i64)
+        }
+    }
+}
+
 /// Status of alpha variables of the solver
 #[derive(Clone, Debug, PartialEq)]
 struct Alpha<F: Float> {
@@ -252,6 +291,203 @@ impl<'a, F: Float, K: 'a + Permutable<F>> SolverState<'a, F, K> {
         linfa::verif_hook::emit(&body);
     }
 
+    /// Verification hook (step level): is step logging on for the running solve()?
+    #[cfg(linfa_verif)]
+    fn verif_steps_on(&self) -> bool {
+        VERIF_STEPS.with(|c| c.get().0) && linfa::verif_hook::enabled()
+    }
+
+    /// Verification hook (step level): status of the variable at position `k`
+    /// (0 = at the lower bound, 1 = free, 2 = at the upper bound, as the solver tests it)
+    #[cfg(linfa_verif)]
+    fn verif_status(&self, k: usize) -> usize {
+        if self.alpha[k].reached_upper() {
+            2
+        } else if self.alpha[k].reached_lower() {
+            0
+        } else {
+            1
+        }
+    }
+
+    /// Verification hook (step level): per-position snapshot `as` (active_set), `y` (targets),
+    /// `a` (alpha, 1e6), `g` (gradient, 1e6), `st` (status); `coarse` = 1 when the problem is
+    /// too large or a value does not fit the fixed-point range (then the arrays are empty).
+    #[cfg(linfa_verif)]
+    fn verif_snapshot(&self) -> String {
+        fn join<T, I: Iterator<Item = T>>(it: I, f: impl Fn(T) -> String) -> String {
+            it.map(f).collect::<Vec<_>>().join(",")
+        }
+        let fits = |v: F| {
+            v.to_f64()
+                .map(|x| x.is_finite() && (x * 1e6).round().abs() < 1073741824.0)
+                .unwrap_or(false)
+        };
+        let detail = self.ntotal() <= VERIF_MAX_DETAIL
+            && self.alpha.iter().all(|a| fits(a.val()))
+            && self.gradient.iter().all(|g| fits(*g));
+        if !detail {
+            return format!(
+                "\"n\":{},\"nactive\":{},\"coarse\":1,\"as\":[],\"y\":[],\"a\":[],\"g\":[],\"st\":[]",
+                self.ntotal(),
+                self.nactive
+            );
+        }
+        format!(
+            "\"n\":{},\"nactive\":{},\"coarse\":0,\"as\":[{}],\"y\":[{}],\"a\":[{}],\"g\":[{}],\"st\":[{}]",
+            self.ntotal(),
+            self.nactive,
+            join(self.active_set.iter(), |x| x.to_string()),
+            join(self.targets.iter(), |x| (*x as usize).to_string()),
+            join(self.alpha.iter(), |x| verif_fx(x.val(), 1e6)),
+            join(self.gradient.iter(), |x| verif_fx(*x, 1e6)),
+            join(0..self.ntotal(), |k| self.verif_status(k).to_string()),
+        )
+    }
+
+    /// Verification hook (step level): `smo.select` -- the working set chosen by
+    /// select_working_set(_nu) together with the gradient-derived quantities it used:
+    /// `gm` = the maxima of max_violating_pair(_nu) (C forms: [m(alpha), -M(alpha)]; nu forms:
+    /// [m+, -M+ , m-, -M-] in the order gmaxp1, gmaxp2, gmaxn1, gmaxn2), `gap` = the maximal
+    /// violation that is compared with `eps` (1e9), `gain` = the second-order objective value
+    /// -b^2/a of the chosen `j`, positions `i`, `j` (-1 = none) and their samples `si`, `sj`.
+    /// Whether the run continues or stops is not logged here: it is the next event.
+    #[cfg(linfa_verif)]
+    fn verif_select(&self, gm: &[F], gap: F, i: isize, j: isize, gain: F) {
+        if !self.verif_steps_on() {
+            return;
+        }
+        let sample = |k: isize| {
+            if k >= 0 && (k as usize) < self.active_set.len() {
+                self.active_set[k as usize] as isize
+            } else {
+                -1
+            }
+        };
+        let body = format!(
+            "\"ev\":\"smo.select\",\"nu\":{},\"i\":{},\"j\":{},\"si\":{},\"sj\":{},\"gm\":[{}],\"gap\":{},\"eps\":{},\"gain\":{},{}",
+            self.nu_constraint as usize,
+            i,
+            j,
+            sample(i),
+            sample(j),
+            gm.iter().map(|g| verif_fxf(*g, 1e6)).collect::<Vec<_>>().join(","),
+            verif_fxf(gap, 1e6),
+            verif_fxf(self.params.eps, 1e9),
+            verif_fxf(gain, 1e6),
+            self.verif_snapshot(),
+        );
+        let logged = VERIF_STEPS.with(|c| c.get().1);
+        if logged < VERIF_MAX_STEPS {
+            linfa::verif_hook::emit(&body);
+        } else {
+            // beyond the cap: kept back until it is known that no update follows
+            VERIF_PENDING.with(|p| p.borrow_mut().push(body));
+        }
+    }
+
+    /// Verification hook (step level): `smo.update` -- the two-variable step on positions `i`, `j`
+    /// (samples `si`, `sj`, targets `yi`, `yj`): box bounds `ci`, `cj`, gradients `gi`, `gj` and
+    /// alphas `oi`, `oj` before the step, curvature `qc` as used (after the replacement of a
+    /// non-positive value), unclipped step `delta`, alphas `ni`, `nj` after clipping (all 1e6), the
+    /// clipping branches taken in the first and second clipping stage `br` (0 = none; 1 = alpha_j
+    /// set to 0, 2 = alpha_i set to 0, 3 = alpha_i set to its bound, 4 = alpha_j set to its bound)
+    /// and the status of the two variables after the step.
+    #[cfg(linfa_verif)]
+    fn verif_update(
+        &self,
+        i: usize,
+        j: usize,
+        old: (F, F),
+        grad: (F, F),
+        qc: F,
+        delta: F,
+        br: (u8, u8),
+    ) {
+        if !self.verif_steps_on() {
+            return;
+        }
+        let (_, logged, skipped) = VERIF_STEPS.with(|c| c.get());
+        if logged >= VERIF_MAX_STEPS {
+            // coarse logging beyond the cap: the iteration is only counted
+            VERIF_PENDING.with(|p| p.borrow_mut().clear());
+            VERIF_STEPS.with(|c| c.set((true, logged, skipped + 1)));
+            return;
+        }
+        VERIF_STEPS.with(|c| c.set((true, logged + 1, skipped)));
+        linfa::verif_hook::emit(&format!(
+            "\"ev\":\"smo.update\",\"i\":{},\"j\":{},\"si\":{},\"sj\":{},\"yi\":{},\"yj\":{},\"ci\":{},\"cj\":{},\"gi\":{},\"gj\":{},\"oi\":{},\"oj\":{},\"qc\":{},\"delta\":{},\"ni\":{},\"nj\":{},\"br\":[{},{}],\"sti\":{},\"stj\":{}",
+            i,
+            j,
+            self.active_set[i],
+            self.active_set[j],
+            self.targets[i] as usize,
+            self.targets[j] as usize,
+            verif_fxf(self.bound(i), 1e6),
+            verif_fxf(self.bound(j), 1e6),
+            verif_fxf(grad.0, 1e6),
+            verif_fxf(grad.1, 1e6),
+            verif_fxf(old.0, 1e6),
+            verif_fxf(old.1, 1e6),
+            verif_fxf(qc, 1e6),
+            verif_fxf(delta, 1e6),
+            verif_fxf(self.alpha[i].val(), 1e6),
+            verif_fxf(self.alpha[j].val(), 1e6),
+            br.0,
+            br.1,
+            self.verif_status(i),
+            self.verif_status(j),
+        ));
+    }
+
+    /// Verification hook (step level): `smo.stop` -- the main loop ends (`why` 0 = the optimality
+    /// gap of all variables is below eps, 1 = iteration budget) after `iter` iterations, of which
+    /// `skipped` were not logged step by step (preceded by a `smo.skip` event in that case).
+    #[cfg(linfa_verif)]
+    fn verif_stop(&self, why: usize, iter: usize) {
+        if !self.verif_steps_on() {
+            return;
+        }
+        let (_, logged, skipped) = VERIF_STEPS.with(|c| c.get());
+        if skipped > 0 {
+            linfa::verif_hook::emit(&format!(
+                "\"ev\":\"smo.skip\",\"logged\":{},\"skipped\":{}",
+                logged, skipped
+            ));
+        }
+        for body in VERIF_PENDING.with(|p| std::mem::take(&mut *p.borrow_mut())) {
+            linfa::verif_hook::emit(&body);
+        }
+        linfa::verif_hook::emit(&format!(
+            "\"ev\":\"smo.stop\",\"why\":{},\"iter\":{},\"logged\":{},\"skipped\":{},{}",
+            why,
+            iter,
+            logged,
+            skipped,
+            self.verif_snapshot()
+        ));
+    }
+
+    /// Verification hook (step level): `smo.rho` -- the threshold returned by calculate_rho(_nu),
+    /// the margin parameter `r` of the nu forms, and the number of free variables that were
+    /// averaged (`nfree`: [all] for the C forms, [positive, negative] for the nu forms).
+    #[cfg(linfa_verif)]
+    fn verif_rho(&self, rho: F) {
+        if !self.verif_steps_on() {
+            return;
+        }
+        let nfree = VERIF_NFREE.with(|c| c.get());
+        linfa::verif_hook::emit(&format!(
+            "\"ev\":\"smo.rho\",\"nu\":{},\"rho\":{},\"r\":{},\"nfree\":[{},{}],{}",
+            self.nu_constraint as usize,
+            verif_fxf(rho, 1e6),
+            verif_fxf(self.r, 1e6),
+            nfree.0,
+            nfree.1,
+            self.verif_snapshot()
+        ));
+    }
+
     /// Swap two variables
     pub fn swap(&mut self, i: usize, j: usize) {
         self.gradient.swap(i, j);
@@ -324,6 +560,13 @@ impl<'a, F: Float, K: 'a + Permutable<F>> SolverState<'a, F, K> {
         let ui = self.alpha[i].reached_upper();
         let uj = self.alpha[j].reached_upper();
 
+        #[cfg(linfa_verif)]
+        let verif_grad = (self.gradient[i], self.gradient[j]);
+        #[cfg(linfa_verif)]
+        let mut verif_qd = (F::zero(), F::zero());
+        #[cfg(linfa_verif)]
+        let mut verif_br = (0u8, 0u8);
+
         if self.targets[i] != self.targets[j] {
             let mut quad_coef = self.kernel.self_distance(i)
                 + self.kernel.self_distance(j)
@@ -334,6 +577,10 @@ impl<'a, F: Float, K: 'a + Permutable<F>> SolverState<'a, F, K> {
 
             let delta = -(self.gradient[i] + self.gradient[j]) / quad_coef;
             let diff = self.alpha[i].val() - self.alpha[j].val();
+            #[cfg(linfa_verif)]
+            {
+                verif_qd = (quad_coef, delta);
+            }
 
             // update parameters
             self.alpha[i].value += delta;
@@ -344,20 +591,36 @@ impl<'a, F: Float, K: 'a + Permutable<F>> SolverState<'a, F, K> {
                 if self.alpha[j].val() < F::zero() {
                     self.alpha[j].value = F::zero();
                     self.alpha[i].value = diff;
+                    #[cfg(linfa_verif)]
+                    {
+                        verif_br.0 = 1;
+                    }
                 }
             } else if self.alpha[i].val() < F::zero() {
                 self.alpha[i].value = F::zero();
                 self.alpha[j].value = -diff;
+                #[cfg(linfa_verif)]
+                {
+                    verif_br.0 = 2;
+                }
             }
 
             if diff > bound_i - bound_j {
                 if self.alpha[i].val() > bound_i {
                     self.alpha[i].value = bound_i;
                     self.alpha[j].value = bound_i - diff;
+                    #[cfg(linfa_verif)]
+                    {
+                        verif_br.1 = 3;
+                    }
                 }
             } else if self.alpha[j].val() > bound_j {
                 self.alpha[j].value = bound_j;
                 self.alpha[i].value = bound_j + diff;
+                #[cfg(linfa_verif)]
+                {
+                    verif_br.1 = 4;
+                }
             }
         } else {
             //dbg!(self.kernel.self_distance(i), self.kernel.self_distance(j), F::cast(2.0) * dist_i[j]);
@@ -369,6 +632,10 @@ impl<'a, F: Float, K: 'a + Permutable<F>> SolverState<'a, F, K> {
 
             let delta = (self.gradient[i] - self.gradient[j]) / quad_coef;
             let sum = self.alpha[i].val() + self.alpha[j].val();
+            #[cfg(linfa_verif)]
+            {
+                verif_qd = (quad_coef, delta);
+            }
 
             // update parameters
             self.alpha[i].value -= delta;
@@ -379,19 +646,35 @@ impl<'a, F: Float, K: 'a + Permutable<F>> SolverState<'a, F, K> {
                 if self.alpha[i].val() > bound_i {
                     self.alpha[i].value = bound_i;
                     self.alpha[j].value = sum - bound_i;
+                    #[cfg(linfa_verif)]
+                    {
+                        verif_br.0 = 3;
+                    }
                 }
             } else if self.alpha[j].val() < F::zero() {
                 self.alpha[j].value = F::zero();
                 self.alpha[i].value = sum;
+                #[cfg(linfa_verif)]
+                {
+                    verif_br.0 = 1;
+                }
             }
             if sum > bound_j {
                 if self.alpha[j].val() > bound_j {
                     self.alpha[j].value = bound_j;
                     self.alpha[i].value = sum - bound_j;
+                    #[cfg(linfa_verif)]
+                    {
+                        verif_br.1 = 4;
+                    }
                 }
             } else if self.alpha[i].val() < F::zero() {
                 self.alpha[i].value = F::zero();
                 self.alpha[j].value = sum;
+                #[cfg(linfa_verif)]
+                {
+                    verif_br.1 = 2;
+                }
             }
             /*if self.alpha[i].val() > bound_i {
                 self.alpha[i].value = bound_i;
@@ -447,6 +730,17 @@ impl<'a, F: Float, K: 'a + Permutable<F>> SolverState<'a, F, K> {
                 }
             }
         }
+
+        #[cfg(linfa_verif)]
+        self.verif_update(
+            i,
+            j,
+            (old_alpha_i, old_alpha_j),
+            verif_grad,
+            verif_qd.0,
+            verif_qd.1,
+            verif_br,
+        );
     }
 
     /// Return max and min gradients of free variables
@@ -569,6 +863,15 @@ impl<'a, F: Float, K: 'a + Permutable<F>> SolverState<'a, F, K> {
             }
         }
 
+        #[cfg(linfa_verif)]
+        self.verif_select(
+            &[gmax.0, gmax2.0],
+            gmax.0 + gmax2.0,
+            gmax.1,
+            obj_diff_min.1,
+            obj_diff_min.0,
+        );
+
         if gmax.0 + gmax2.0 < self.params.eps || obj_diff_min.1 == -1 {
             (0, 0, true)
         } else {
@@ -651,6 +954,21 @@ impl<'a, F: Float, K: 'a + Permutable<F>> SolverState<'a, F, K> {
                 }
             }
         }
+
+        #[cfg(linfa_verif)]
+        self.verif_select(
+            &[gmaxp1.0, gmaxp2.0, gmaxn1.0, gmaxn2.0],
+            F::max(gmaxp1.0 + gmaxp2.0, gmaxn1.0 + gmaxn2.0),
+            if obj_diff_min.1 == -1 {
+                -1
+            } else if self.targets[obj_diff_min.1 as usize] {
+                gmaxp1.1
+            } else {
+                gmaxn1.1
+            },
+            obj_diff_min.1,
+            obj_diff_min.0,
+        );
 
         if F::max(gmaxp1.0 + gmaxp2.0, gmaxn1.0 + gmaxn2.0) < self.params.eps
             || obj_diff_min.1 == -1
@@ -802,6 +1120,9 @@ impl<'a, F: Float, K: 'a + Permutable<F>> SolverState<'a, F, K> {
             }
         }
 
+        #[cfg(linfa_verif)]
+        VERIF_NFREE.with(|c| c.set((nfree, 0)));
+
         if nfree > 0 {
             sum_free / F::cast(nfree)
         } else {
@@ -839,6 +1160,9 @@ impl<'a, F: Float, K: 'a + Permutable<F>> SolverState<'a, F, K> {
             }
         }
 
+        #[cfg(linfa_verif)]
+        VERIF_NFREE.with(|c| c.set((nfree1, nfree2)));
+
         let r1 = if nfree1 > 0 {
             sum_free1 / F::cast(nfree1)
         } else {
@@ -858,6 +1182,12 @@ impl<'a, F: Float, K: 'a + Permutable<F>> SolverState<'a, F, K> {
     pub fn solve(mut self) -> Svm<F, F> {
         #[cfg(linfa_verif)]
         VERIF_EVENTS.with(|c| c.set(0));
+        #[cfg(linfa_verif)]
+        {
+            let on = std::env::var_os("LINFA_VERIF_SMO_STEPS").map_or(false, |v| v == "1");
+            VERIF_STEPS.with(|c| c.set((on, 0, 0)));
+            VERIF_PENDING.with(|p| p.borrow_mut().clear());
+        }
         let mut iter = 0;
         let max_iter = if self.targets.len() > usize::MAX / 100 {
             usize::MAX
@@ -885,6 +1215,8 @@ impl<'a, F: Float, K: 'a + Permutable<F>> SolverState<'a, F, K> {
                 self.nactive = self.ntotal();
                 let (i2, j2, is_optimal) = self.select_working_set();
                 if is_optimal {
+                    #[cfg(linfa_verif)]
+                    self.verif_stop(0, iter);
                     break;
                 } else {
                     // do shrinking next iteration
@@ -900,12 +1232,19 @@ impl<'a, F: Float, K: 'a + Permutable<F>> SolverState<'a, F, K> {
             self.update((i, j));
         }
 
+        #[cfg(linfa_verif)]
+        if iter >= max_iter {
+            self.verif_stop(1, iter);
+        }
+
         if iter >= max_iter && self.nactive() < self.targets.len() {
             self.reconstruct_gradient();
             self.nactive = self.ntotal();
         }
 
         let rho = self.calculate_rho();
+        #[cfg(linfa_verif)]
+        self.verif_rho(rho);
         let r = if self.nu_constraint {
             Some(self.r)
         } else {
